@@ -1,8 +1,11 @@
 #include "StubPhysics.hh"
 
 #include <cmath>
+#include <stdexcept>
 
 #include "corecel/math/ArrayUtils.hh"
+#include "celeritas/em/model/KleinNishinaModel.hh"
+#include "celeritas/em/model/MollerBhabhaModel.hh"
 #include "celeritas/global/ActionLauncher.hh"
 #include "celeritas/global/CoreParams.hh"
 #include "celeritas/global/CoreState.hh"
@@ -151,6 +154,12 @@ void StubModel::step(CoreParams const& params, CoreStateHost& state) const
 //---------------------------------------------------------------------------//
 auto StubProcess::build_models(ActionIdIter start_id) const -> VecModel
 {
+    if (inp_.real == "klein_nishina")
+        return {std::make_shared<celeritas::KleinNishinaModel>(*start_id++, *inp_.particles)};
+    if (inp_.real == "moller_bhabha")
+        return {std::make_shared<celeritas::MollerBhabhaModel>(*start_id++, *inp_.particles)};
+    if (!inp_.real.empty())
+        throw std::runtime_error("unknown real model " + inp_.real);
     return {std::make_shared<StubModel>(*start_id++, inp_)};
 }
 
